@@ -78,6 +78,36 @@ def check(run):
                             viol(f"predicate and raising form of the {name} validator disagree ({dev})", {"string": s, "validator": name})
                         if ex is not None and not isinstance(ex, (TypeError, ValueError)):
                             viol(f"checkformat for {name} raised {type(ex).__name__}", {"string": s, "validator": name})
+        elif case["kind"] == "long":
+            t = case["t"]
+            d = t["d1"]
+            nontrivial = d["op"] != "none"
+            n = t["len"]
+            chars = [rr.choice(CLASS_CHARS["d"]), rr.choice(CLASS_CHARS["l"])]
+            s = (chars[0] + chars[1]) * (n // 2) + (chars[0] if n % 2 else "")
+            if d["op"] != "none":
+                i = {"first": 1, "last": n, "middle": n // 2 + 1, "at65536": 65536, "at65537": 65537, "at100": 100}[d["pos"]]
+                i = min(i, n)
+                ch = rr.choice(CLASS_CHARS[d["cls"]])
+                s = s[:i - 1] + ch + (s[i:] if d["op"] == "sub" else s[i - 1:])
+            want = case["hexstring"]
+            if twins.twin_is_hex(s) != want:
+                raise MachineryFailure(f"twin hexstring disagrees with Formats.tla's closed form on a long string ({t})")
+            dev = f"len={n} d1={d['op']}:{d['cls'] if d['op'] != 'none' else '-'}@{d['pos'] if d['op'] != 'none' else '-'}"
+            got, ex = c.is_hex_string(s), raises(c.checkformat_hex_string, s)
+            run.evaluations += 2
+            if got is not want or (ex is None) is not want:
+                viol(f"hexstring validator {'accepts' if (got or ex is None) else 'rejects'} a long string the grammar {'rejects' if not want else 'accepts'} ({dev})",
+                     {"validator": "hexstring", "template": t, "string_head": s[:80]})
+            ent = {"other_headers": s, "signature": good_sig}
+            for name, pred, chk in (("gpg (is_gpg_signature)", c.is_gpg_signature, c.checkformat_gpg_signature),
+                                    ("raw-or-gpg (is_signature)", c.is_signature, c.checkformat_signature),
+                                    ("any (checkformat_any_signature)", None, c.checkformat_any_signature)):
+                acc = raises(chk, ent) is None
+                run.evaluations += 1
+                if acc is not want or (pred is not None and pred(ent) is not want):
+                    viol(f"{name}: entry with long other_headers {'accepted' if acc else 'rejected'} but the grammar {'rejects' if not want else 'accepts'} it ({dev})",
+                         {"template": t, "string_head": s[:80]})
         elif case["kind"] == "entry":
             e = case["e"]
             nontrivial = not (case["raw"] or case["gpg"])
